@@ -31,6 +31,7 @@ type Config struct {
 	RetryCount   uint                         `json:"retries"`
 	Predef       map[string]map[uint16]string `json:"predef,omitempty"`
 	SkipIDs      int                          `json:"skip_ids,omitempty"`
+	MaxTopicID   uint16                       `json:"max_topic_id,omitempty"` // 0 = the real range 1..0xFFFE
 }
 
 // Auto describes how the scripted peers react on their own. They know only the
@@ -181,7 +182,7 @@ func Start(cfg Config, shared *gateway.VerifShared, name string) *Session {
 	ctx, cancel := context.WithCancel(context.Background())
 	s.Cancel = cancel
 	go func() {
-		gateway.VerifRunSession(ctx, shared, predef, lg, s.SN.Conn(), s.MQ.Conn(), cfg.SkipIDs)
+		gateway.VerifRunSession(ctx, shared, predef, lg, s.SN.Conn(), s.MQ.Conn(), gateway.VerifSessionOpts{SkipTopicIDs: cfg.SkipIDs, MaxTopicID: cfg.MaxTopicID})
 		s.tr.EndNs = int64(time.Since(s.start))
 		close(s.Done)
 	}()
